@@ -48,6 +48,8 @@ def construct_second_scan(rng, d, want):
         for _ in range(batch):
             if d == 0:
                 hx = ''.join(rng.choice('0123456789abcdef') for _ in range(16))
+                while sum(ch.isdigit() for ch in hx) < 4:      # d = 0 means the first scan already finds four digits
+                    hx = ''.join(rng.choice('0123456789abcdef') for _ in range(16))
             else:
                 pos = set(rng.sample(range(16), 4 - d))
                 hx = ''.join(rng.choice('0123456789') if k in pos else rng.choice('abcdef') for k in range(16))
@@ -65,7 +67,7 @@ def construct_second_scan(rng, d, want):
 
 def cases(ctx):
     rng = ctx.rng('pvv')
-    reps = 6 if ctx.tier == 'quick' else 40
+    reps = 6 if ctx.tier == 'quick' else 300
     i = 0
     g = ctx.rng_global('grid')
     for rep in range(reps):
@@ -81,7 +83,7 @@ def cases(ctx):
     if ctx.shard == 0:
         ctx.exhaustive_subspace('PIN length 4..12 x PAN length 13..19 x key length {8,16,24} (digits seeded)', 9 * 7 * 3)
     # second-scan construction, every d in every shard that has work
-    per = {0: 3, 1: 3, 2: 3, 3: 3, 4: 2} if ctx.tier == 'quick' else {0: 12, 1: 12, 2: 12, 3: 12, 4: 8}
+    per = {0: 3, 1: 3, 2: 3, 3: 3, 4: 2} if ctx.tier == 'quick' else {0: 60, 1: 60, 2: 60, 3: 60, 4: 40}
     for d, want in per.items():
         for key, tsp, ct in construct_second_scan(rng, d, want):
             extra = digits(rng, rng.randint(0, 8))
@@ -90,7 +92,7 @@ def cases(ctx):
                    'via': rng.choice(['function', 'mixin0', 'mixin4']), 'constructed_d': d, 'ciphertext': ct}
     # key components
     rng = ctx.rng('keys')
-    for j in range((320 if ctx.tier == 'quick' else 4000) // ctx.nshards + 1):
+    for j in range((320 if ctx.tier == 'quick' else 40000) // ctx.nshards + 1):
         size = rng.choice([8, 16, 16, 24])
         parts = [rng.randbytes(size).hex() for _ in range(rng.randint(2, 5))]
         if rng.random() < 0.3:
